@@ -319,6 +319,7 @@ func CheckGuardedBy(p *Prog, e *LockEngine, r *Report, rule string, specs []Guar
 // acquisitions of lock (any mode) executed before it (capped at 3) — the index
 // of the critical section an access belongs to.
 func sectionIndex(e *LockEngine, fn *ssa.Function, lock string) map[ssa.Instruction]uint8 {
+	acq := e.Acquirers(lock)
 	// bitset of possible counts {0,1,2,3+}
 	n := len(fn.Blocks)
 	in := make([]uint8, n)
@@ -354,6 +355,11 @@ func sectionIndex(e *LockEngine, fn *ssa.Function, lock string) map[ssa.Instruct
 				if c, ok := instr.(*ssa.Call); ok {
 					if id, kind, ok := e.lockOp(c); ok && id == lock && (kind == opLock || kind == opRLock) {
 						st = bump(st)
+					} else if cal := staticCallee(c); cal != nil && acq[cal] {
+						// the callee runs its own critical section on the same lock;
+						// the call itself is recorded as belonging to that section
+						st = bump(st)
+						res[instr] = st
 					}
 				}
 			}
@@ -390,6 +396,26 @@ func CheckSingleSection(p *Prog, e *LockEngine, r *Report, rule string, specs []
 				continue
 			}
 			perField[a.ID] = append(perField[a.ID], a)
+		}
+		// calls to sibling functions that run their own critical section on the
+		// guarding lock and touch the field count as accesses in a section of their own
+		for i := range specs {
+			sp := &specs[i]
+			acq := e.Acquirers(sp.Lock)
+			allInstrs(fn, func(in ssa.Instruction) {
+				call, ok := in.(*ssa.Call)
+				if !ok || !e.Reachable(in) {
+					return
+				}
+				cal := staticCallee(call)
+				if cal == nil || !acq[cal] || !touchesField(p, cal, sp.Field, map[*ssa.Function]bool{}) {
+					return
+				}
+				if len(perField[sp.Field]) == 0 && !hasOtherSectionCall(e, fn, call, acq) {
+					return // a pure wrapper around one sibling call
+				}
+				perField[sp.Field] = append(perField[sp.Field], Access{Fn: fn, Instr: in, ID: sp.Field, Kind: AccRead, What: "call to " + cal.Name() + " (separate critical section)"})
+			})
 		}
 		for id, as := range perField {
 			spec := byField[id]
@@ -499,4 +525,38 @@ func prePublication(in ssa.Instruction) bool {
 		}
 	}
 	return true
+}
+
+// hasOtherSectionCall: fn contains another call (besides self) to a function
+// running its own critical section on the lock.
+func hasOtherSectionCall(e *LockEngine, fn *ssa.Function, self *ssa.Call, acq map[*ssa.Function]bool) bool {
+	found := false
+	allInstrs(fn, func(in ssa.Instruction) {
+		if c, ok := in.(*ssa.Call); ok && c != self {
+			if cal := staticCallee(c); cal != nil && acq[cal] {
+				found = true
+			}
+		}
+	})
+	return found
+}
+
+// touchesField: fn (or a static callee) accesses field f.
+func touchesField(p *Prog, fn *ssa.Function, f FieldID, seen map[*ssa.Function]bool) bool {
+	if seen[fn] {
+		return false
+	}
+	seen[fn] = true
+	if len(FieldAccesses(fn, func(id FieldID) bool { return id == f })) > 0 {
+		return true
+	}
+	found := false
+	allInstrs(fn, func(in ssa.Instruction) {
+		if c, ok := in.(*ssa.Call); ok && !found {
+			if cal := staticCallee(c); cal != nil && p.funcSet[cal] && touchesField(p, cal, f, seen) {
+				found = true
+			}
+		}
+	})
+	return found
 }
